@@ -22,7 +22,8 @@ NPROC = coqrun.NPROC
 
 
 def translate(ctx):
-    return None
+    from ..translate import hungglue
+    return hungglue.generate(ctx.repo)
 
 
 # ----------------------------------------------------------------------------------------------
@@ -40,18 +41,102 @@ def _dstep(h, x):
     return (h * DB + x + 1) & DP
 
 
+def _scale(slog):
+    """2**slog as an exact number (slog may be negative: huge binary floating-point entries)"""
+    return (1 << slog) if slog >= 0 else Fraction(1, 1 << -slog)
+
+
 def _to_ints(arr, scale):
-    """exact integers of arr*scale (arr integer or binary64 with dyadic entries); None if not integral"""
+    """exact integers of arr*scale (arr integer/bool or binary floating point with dyadic entries, any width, byte
+    order and memory layout); None if not integral"""
     if arr.dtype.kind in "iub":
         vals = arr.astype(object).ravel().tolist()
-        return [int(v) * scale for v in vals]
+        if scale == 1:
+            return [int(v) for v in vals]
+        frs = [int(v) * Fraction(scale) for v in vals]
+        return None if any(f.denominator != 1 for f in frs) else [int(f) for f in frs]
+    if arr.dtype.kind != "f":
+        return None
     out = []
     for v in arr.ravel().tolist():
-        fr = Fraction(v) * scale
+        f = float(v)
+        if f != v or f != f or f in (float("inf"), float("-inf")):
+            return None
+        fr = Fraction(f) * scale
         if fr.denominator != 1:
             return None
         out.append(int(fr))
     return out
+
+
+# ---- array construction: element type and memory layout --------------------------------------------------------
+# kind = base[/layout].  base: "int" (numpy's default integer), "bool", "dyadic" (binary64 = integer / 2**slog), or a
+# numpy dtype string (int8 .. uint64, float16/32/64, longdouble, explicit byte order such as ">i4"); floating-point
+# bases hold integer / 2**slog.  layout: C (default), F (Fortran order), strided (every 2nd row / 3rd column of a larger
+# array), neg (negative strides on both axes), Fneg (Fortran order, negative row stride), offset (a window of a larger
+# array), readonly (writeable flag cleared), T (transpose view of a C array).
+
+LAYOUTS = ["C", "F", "strided", "neg", "Fneg", "offset", "readonly", "T"]
+
+
+def _parse_kind(kind):
+    base, _, layout = kind.partition("/")
+    return base, (layout or "C")
+
+
+def _layout(a, layout):
+    n, m = a.shape
+    if layout == "C":
+        return a
+    if layout == "F":
+        return np.asfortranarray(a)
+    if layout == "T":
+        return np.ascontiguousarray(a.T).T
+    if layout == "strided":
+        big = np.ones((2 * n + 1, 3 * m + 2), dtype=a.dtype)
+        v = big[1::2, 2::3]
+        v[...] = a
+        return v
+    if layout == "neg":
+        return np.ascontiguousarray(a[::-1, ::-1])[::-1, ::-1]
+    if layout == "Fneg":
+        return np.asfortranarray(a[::-1, :])[::-1, :]
+    if layout == "offset":
+        big = np.ones((n + 3, m + 2), dtype=a.dtype)
+        v = big[2:2 + n, 1:1 + m]
+        v[...] = a
+        return v
+    if layout == "readonly":
+        b = a.copy()
+        b.flags.writeable = False
+        return b
+    raise ValueError("unknown layout " + layout)
+
+
+def _mkarr(matrix, kind, slog):
+    base, layout = _parse_kind(kind)
+    if base == "bool":
+        arr = np.array(matrix, dtype=bool)
+    elif base == "dyadic":
+        arr = np.ldexp(np.array(matrix, dtype=float), -slog)
+    elif base == "int":
+        arr = np.array(matrix, dtype=int)
+    else:
+        dt = np.dtype(base)
+        if dt.kind == "f":
+            arr = np.ldexp(np.array(matrix, dtype=np.float64), -slog).astype(dt)
+        else:
+            arr = np.array(matrix, dtype=dt)
+    if arr.ndim == 1 and len(matrix) == 0:
+        arr = arr.reshape(0, 0)
+    if arr.ndim == 2 and layout != "C":
+        arr = _layout(arr, layout)
+    if kind not in ("int", "bool"):
+        # the array must hold exactly the integers the model is run on (generator obligation)
+        want = [(1 if x else 0) if base == "bool" else x for r in matrix for x in r]
+        if _to_ints(arr, _scale(slog) if arr.dtype.kind == "f" else 1) != want:
+            raise AssertionError(f"{kind}: matrix is not exactly representable")
+    return arr
 
 
 def impl_run(matrix, kind="int", slog=0, want_trace=False, limit=5.0):
@@ -60,15 +145,8 @@ def impl_run(matrix, kind="int", slog=0, want_trace=False, limit=5.0):
     to the implementation is int (kind int), bool (kind bool) or float64 = matrix / 2**slog (kind dyadic).
     Returns ("Ok", rows, cols, R_ints, nsteps, digest[, trace]) or ("Err", exception class name)."""
     import qcelemental.util.scipy_hungarian as H
-    scale = 1 << slog
-    if kind == "bool":
-        arr = np.array(matrix, dtype=bool)
-    elif kind == "dyadic":
-        arr = np.array(matrix, dtype=float) / float(scale)
-    else:
-        arr = np.array(matrix, dtype=int)
-    if arr.ndim == 1 and len(matrix) == 0:
-        arr = arr.reshape(0, 0)
+    arr = _mkarr(matrix, kind, slog)
+    scale = _scale(slog) if arr.dtype.kind == "f" else 1
     names = [k for k in vars(H) if k.startswith("_step") and callable(getattr(H, k))]
     orig = {k: getattr(H, k) for k in names}
     rec = {"h": 7, "n": 0, "bad": None, "trace": []}
@@ -146,18 +224,6 @@ def impl_run(matrix, kind="int", slog=0, want_trace=False, limit=5.0):
     return out
 
 
-def _mkarr(matrix, kind, slog):
-    if kind == "bool":
-        arr = np.array(matrix, dtype=bool)
-    elif kind == "dyadic":
-        arr = np.array(matrix, dtype=float) / float(1 << slog)
-    else:
-        arr = np.array(matrix, dtype=int)
-    if arr.ndim == 1 and len(matrix) == 0:
-        arr = arr.reshape(0, 0)
-    return arr
-
-
 def impl_variants(matrix, kind, slog, out, limit=5.0):
     """the other ways of calling the solver on the same matrix, uninstrumented, after the instrumented run:
     return_cost omitted / False (pairs only), a nested list instead of an array, the defining module's name, and the
@@ -168,11 +234,11 @@ def impl_variants(matrix, kind, slog, out, limit=5.0):
     import qcelemental.util as U
     import qcelemental.util.scipy_hungarian as H
     rows, cols, R = out[1], out[2], out[3]
-    scale = 1 << slog
     old = signal.signal(signal.SIGVTALRM, _alarm)
     signal.setitimer(signal.ITIMER_VIRTUAL, limit)
     try:
         arr = _mkarr(matrix, kind, slog)
+        scale = _scale(slog) if arr.dtype.kind == "f" else 1
         for label, call in (("return_cost omitted", lambda: U.linear_sum_assignment(arr)),
                             ("return_cost=False", lambda: H.linear_sum_assignment(arr, return_cost=False)),
                             ("nested-list input", lambda: U.linear_sum_assignment(arr.tolist()) if arr.size else U.linear_sum_assignment(arr))):
@@ -187,6 +253,16 @@ def impl_variants(matrix, kind, slog, out, limit=5.0):
         flat = [v for r in R for v in r]
         if [int(x) for x in r3.tolist()] != rows or [int(x) for x in c3.tolist()] != cols or R3i != flat:
             return "a second return_cost=True call on the same matrix gave a different answer"
+        # the returned arrays are the caller's to change: that must reach neither the caller's matrix nor later answers
+        keep = arr.copy()
+        for a in (np.asarray(R3), r3, c3):
+            if isinstance(a, np.ndarray) and a.size and a.flags.writeable:
+                a += 3
+        if not np.array_equal(arr, keep):
+            return "changing the returned arrays changed the caller's cost matrix (the result aliases the input)"
+        (r4, c4), R4 = U.linear_sum_assignment(arr, return_cost=True)
+        if [int(x) for x in r4.tolist()] != rows or [int(x) for x in c4.tolist()] != cols or _to_ints(np.asarray(R4), scale) != flat:
+            return "changing the arrays returned by one call changed the answer of the next call on the same matrix"
     except _Timeout:
         return "variant call did not terminate"
     except Exception as e:
@@ -393,6 +469,117 @@ def rand_matrix(rng, lo, hi):
     return M
 
 
+# element types of the dtype stream: name -> (smallest, largest exactly usable integer).  For the floating-point types
+# the bound is the width of the significand (every integer up to it, times 2**-slog, is exact); INTERMEDIATE values of
+# the solver stay within [0, (k+2) r] for a k-row (after transposition) matrix whose entries span a range r -- after
+# _step1 the entries lie in [0, r]; every _step6 raises the dual objective by at least its minval, and the objective is
+# bounded by the cost k r of any assignment, so all minvals together add at most k r to an entry, plus one more r for the
+# "add to covered rows, then subtract from uncovered columns" transient -- so with (k+2) r <= largest nothing wraps
+# around or rounds in the UNCHANGED code (int8 r <= 12 at k = 8; the generator enforces it with _fit).
+INT_TYPES = ["int8", "int16", "int32", "int64", "uint8", "uint16", "uint32", "uint64", ">i2", ">i4", ">i8", ">u2", ">u4", ">u8"]
+FLT_TYPES = {"float16": (11, -4, 24), "float32": (24, -100, 149), "float64": (52, -960, 1074), ">f4": (24, -100, 149),
+             ">f8": (52, -960, 1074), "longdouble": (52, -960, 1074)}       # significand bits, smallest / largest slog
+
+
+def _bounds(base):
+    if base in FLT_TYPES:
+        b = 1 << FLT_TYPES[base][0]
+        return -b, b
+    if base == "bool":
+        return 0, 1
+    ii = np.iinfo(np.dtype(int if base == "int" else base))
+    return int(ii.min), int(ii.max)
+
+
+def _fit(rng, M, vmin, vmax):
+    """M moved/folded into [vmin, vmax] with a spread r such that (k+2) r <= vmax (see above); ties are kept, the
+    position of the window is the original one, the bottom, the top or anywhere in the type's range."""
+    n, m = len(M), len(M[0])
+    k = min(n, m)
+    rmax = max(1, vmax // (k + 2)) if vmax > 1 else 1
+    flat = [x for r in M for x in r]
+    mn = min(flat)
+    if max(flat) - mn > rmax:
+        md = rmax + 1
+        M = [[(x - mn) % md for x in r] for r in M]
+        orig = None
+    else:
+        M = [[x - mn for x in r] for r in M]
+        orig = mn
+    r2 = max(x for r in M for x in r)
+    where = rng.choice(["orig", "orig", "low", "high", "any"])
+    if where == "orig":
+        lo = min(max(vmin, orig if orig is not None else -(r2 // 2)), vmax - r2)
+    elif where == "low":
+        lo = vmin
+    elif where == "high":
+        lo = vmax - r2
+    else:
+        lo = rng.randint(vmin, vmax - r2)
+    return [[x + lo for x in r] for r in M]
+
+
+def dtype_jobs(ctx):
+    """every integer / unsigned / boolean / binary floating-point element type (narrow and wide, both byte orders), in
+    every memory layout, far from and near the origin, tiny and huge scales"""
+    rng = ctx.rng
+    jobs = []
+    bases = INT_TYPES + list(FLT_TYPES) + ["bool", "int", "dyadic"]
+    per = 24 if ctx.thorough else 6
+    for base in bases:
+        for layout in LAYOUTS:
+            for t in range(per):
+                M = rand_matrix(rng, 1, 4 if t % 3 == 0 else 6)
+                slog = 0
+                if base == "bool":
+                    M = [[1 if x > 1 else 0 for x in r] for r in M]
+                else:
+                    fb = "float64" if base == "dyadic" else base
+                    vmin, vmax = _bounds(fb)
+                    M = _fit(rng, M, vmin, vmax)
+                    if fb in FLT_TYPES:
+                        _bits, smin, smax = FLT_TYPES[fb]
+                        slog = rng.choice([0, 0, 1, 3, smin, smax, rng.randint(smin, smax)])
+                jobs.append(("dtype", M, base if layout == "C" else f"{base}/{layout}", slog))
+    # zero-dimensional and single-entry matrices of every type
+    for base in bases:
+        for M in ([], [[], []], [[0]], [[1]]):
+            jobs.append(("dtype", M, base, 0))
+    return jobs
+
+
+def wrap_cases(ctx):
+    """signed integer matrices one of whose working rows spans more than the element type holds (known finding
+    C14-narrow-int-wraparound): judged by the oracle only -- the model works over Z.  (matrix, kind)"""
+    rng = ctx.rng
+    out = []
+    for base in ("int8", "int16", "int32", "int64", ">i2", "int"):
+        lo, hi = _bounds(base)
+        out += [([[hi, lo], [lo, hi]], base), ([[hi, lo, 0], [0, 1, 2]], base), ([[hi, 0], [lo, 1], [0, 2]], base)]
+        for _ in range(6 if ctx.thorough else 2):
+            n, m = rng.randint(2, 4), rng.randint(2, 4)
+            M = [[rng.randint(lo, hi) for _ in range(m)] for _ in range(n)]
+            M[0][0], M[0][1], M[1][0] = hi, lo, lo
+            out.append((M, base + rng.choice(["", "/F", "/neg"])))
+    return out
+
+
+def _known_wrap(f):
+    """a signed integer matrix whose _step1 subtraction itself leaves the element type: some working row (row of the
+    wide orientation) has max - min > the type's largest value"""
+    c = f.get("case") or {}
+    if not isinstance(c.get("kind"), str) or not isinstance(c.get("matrix"), list):
+        return False
+    base = _parse_kind(c["kind"])[0]
+    if base in ("bool", "dyadic") or base in FLT_TYPES or np.dtype(int if base == "int" else base).kind != "i":
+        return False
+    M = c["matrix"]
+    if not M or not M[0]:
+        return False
+    W = M if len(M) <= len(M[0]) else [list(col) for col in zip(*M)]
+    return any(max(r) - min(r) > _bounds(base)[1] for r in W)
+
+
 def gen_jobs(ctx):
     """list of (stream, matrix, kind, slog)"""
     rng = ctx.rng
@@ -415,6 +602,7 @@ def gen_jobs(ctx):
     for n, m in itertools.product(range(0, 4), range(0, 4)):
         if n == 0 or m == 0:
             jobs.append(("zero-dim", [[] for _ in range(n)], "int", 0))
+    jobs += dtype_jobs(ctx)
     return jobs
 
 
@@ -449,8 +637,24 @@ REFUSALS = [
 ]
 
 
+def mk_refuse(obj, dtype=None, layout=None):
+    """the object handed to the implementation: obj itself, or the array of the given element type and layout"""
+    if dtype is None:
+        return obj
+    a = np.array(obj, dtype=np.float64).astype(np.dtype(dtype))
+    return _layout(a, layout or "C")
+
+
+def _rcase(lab, obj, dtype=None, layout=None):
+    c = {"kind": "refuse", "matrix": repr(obj), "label": lab}
+    if dtype is not None:
+        c.update(dtype=dtype, layout=layout or "C")
+    return c
+
+
 def refusal_cases(ctx):
-    """(label, python object handed to the implementation, cell matrix for the model or None)"""
+    """(label, python object, cell matrix for the model or None[, element type, layout]): the object, or the array of
+    that element type and layout made from it, is handed to the implementation"""
     cases = []
     for lab, M in REFUSALS:
         cases.append((lab, M, M))
@@ -461,6 +665,18 @@ def refusal_cases(ctx):
         for _k in range(rng.randint(1, 3)):
             M[rng.randrange(n)][rng.randrange(m)] = rng.choice([float("inf"), float("-inf"), float("nan")])
         cases.append(("rand-nonfinite", M, M))
+    # non-finite entries in arrays of every floating-point element type and memory layout (position, sign and the
+    # number of offending entries vary; the -inf / +inf / nan entry may be the only one, the first, the last)
+    flts = list(FLT_TYPES)
+    for t in range(96 if ctx.thorough else 32):
+        n, m = rng.randint(1, 5), rng.randint(1, 5)
+        M = [[float(rng.randint(-3, 9)) for _ in range(m)] for _ in range(n)]
+        bad = [float("-inf"), float("inf"), float("nan")][t % 3]              # every (entry, type) pair occurs
+        pos = rng.choice([(0, 0), (n - 1, m - 1), (rng.randrange(n), rng.randrange(m))])
+        M[pos[0]][pos[1]] = bad
+        if rng.random() < 0.2:
+            M[rng.randrange(n)][rng.randrange(m)] = rng.choice([float("inf"), float("-inf"), float("nan")])
+        cases.append(("dtype-nonfinite", M, M, flts[(t // 3) % len(flts)], rng.choice(LAYOUTS)))
     cases.append(("ragged", [[1, 2], [3]], [[1.0, 2.0], [3.0]]))
     cases.append(("ragged3", [[1, 2, 3], [3, 4], [5, 6, 7]], [[1.0, 2.0, 3.0], [3.0, 4.0], [5.0, 6.0, 7.0]]))
     cases.append(("strings", [["a", "b"], ["c", "d"]], None))
@@ -468,18 +684,49 @@ def refusal_cases(ctx):
     cases.append(("1-d", [1, 2, 3], None))
     cases.append(("3-d", [[[1, 2], [3, 4]]], None))
     cases.append(("scalar", 5, None))
+    cases.append(("empty-1-d", [], None))
+    cases.append(("none", None, None))
+    cases.append(("string", "abc", None))
+    cases.append(("bytes", [[b"a", b"b"], [b"c", b"d"]], None))
+    cases.append(("mixed-str", [[1, "2"], [3, 4]], None))
+    cases.append(("dict", {"a": 1}, None))
+    cases.append(("nested-none", [[1.0, None], [2.0, 3.0]], None))
     return cases
 
 
 def impl_refuse(obj, limit=5.0):
+    """the public call on an object that must be refused.  A call that does not return is bounded twice: every
+    module-level _stepN is wrapped with a step counter (a finite n x m matrix provably needs at most (k+2)(2k+8) driver
+    steps, so a run far beyond that is a spinning state machine) and a CPU-time alarm covers everything else; both are
+    reported as ("Err", "Timeout"), i.e. as a failing input, never as a stuck check."""
     import warnings
-    from qcelemental.util.scipy_hungarian import linear_sum_assignment
+    import qcelemental.util.scipy_hungarian as H
+    names = [k for k in vars(H) if k.startswith("_step") and callable(getattr(H, k))]
+    orig = {k: getattr(H, k) for k in names}
+    try:
+        shp = np.shape(obj)
+    except Exception:
+        shp = ()
+    kdim = min(shp) if len(shp) == 2 else 0
+    budget = [4 * (kdim + 2) * (2 * kdim + 8) + 50]
+
+    def wrap(fn):
+        def w(state):
+            budget[0] -= 1
+            if budget[0] < 0:
+                raise _Timeout()
+            return fn(state)
+        w.__name__ = fn.__name__
+        return w
+
     old = signal.signal(signal.SIGVTALRM, _alarm)
     signal.setitimer(signal.ITIMER_VIRTUAL, limit)
     try:
+        for k in names:
+            setattr(H, k, wrap(orig[k]))
         with warnings.catch_warnings():
             warnings.simplefilter("ignore")
-            linear_sum_assignment(obj, return_cost=True)
+            H.linear_sum_assignment(obj, return_cost=True)
     except _Timeout:
         return ("Err", "Timeout")
     except Exception as e:
@@ -487,6 +734,8 @@ def impl_refuse(obj, limit=5.0):
     finally:
         signal.setitimer(signal.ITIMER_VIRTUAL, 0)
         signal.signal(signal.SIGVTALRM, old)
+        for k in names:
+            setattr(H, k, orig[k])
     return ("Ok",)
 
 
@@ -535,7 +784,9 @@ def correspond(ctx):
     corr.rule = ("enumerated: every n x m matrix (1<=n,m<=3) over {0,1,2} and 4x4 0/1 matrices (all in the thorough tier, a fixed "
                  "half in the quick tier); sampled: integer/negative/duplicate-row/-column/constant/structured rectangular "
                  "matrices up to 8x8 (brute force) and up to 40x40 (certificate), bool matrices, binary64 matrices with dyadic "
-                 "entries (model run on the scaled integers); a case is non-trivial if the driver ran at least one augmenting "
+                 "entries (model run on the scaled integers), every integer / unsigned / boolean / floating-point element type "
+                 "(int8..uint64, float16/32/64, longdouble, both byte orders) in eight memory layouts, near and far from the "
+                 "origin, tiny and huge binary scales; a case is non-trivial if the driver ran at least one augmenting "
                  "step (_step5) or one reduction step (_step6), i.e. took more than 2 steps; distinct = distinct inputs")
     jobs = gen_jobs(ctx)
     enum = gen_enum(ctx)
@@ -600,16 +851,26 @@ def correspond(ctx):
 
     # refusals
     ref_terms, ref_meta = [], []
-    for lab, obj, cells in refusal_cases(ctx):
-        out = impl_refuse(obj)
+    for lab, obj, cells, *dl in refusal_cases(ctx):
+        out = impl_refuse(mk_refuse(obj, *dl))
         corr.count("refusal")
+        corr.hit("refusal_" + lab)
         if out != ("Err", "ValueError"):
-            corr.failures.append({"stream": "oracle-refusal", "case": {"kind": "refuse", "matrix": repr(obj), "label": lab},
+            corr.failures.append({"stream": "oracle-refusal", "case": _rcase(lab, obj, *dl),
                                   "what": "non-finite / non-numeric / non-matrix input was not refused with ValueError",
                                   "observed": list(out)})
         if cells is not None:
             ref_terms.append("(%s, %s)" % (clist(cells, lambda r: clist(r, ccell)), cresult(out if out[0] == "Err" else ("Err", "none"))))
-            ref_meta.append((lab, obj, out))
+            ref_meta.append((lab, obj, out, dl))
+
+    # wrap-around of signed integer element types (known finding): oracle only
+    for M, kind in wrap_cases(ctx):
+        out = impl_run(M, kind, 0)
+        corr.count("wrap")
+        bad = oracle(M, out)
+        corr.hit("wrap_" + ("violates" if bad else "passes"))
+        if bad:
+            corr.failures.append({"stream": "oracle-wrap", "case": _case(M, kind, 0), "what": bad, "observed": list(out[:6])})
 
     # smallest failing matrix first (it is the one written to the replay file)
     def _size(f):
@@ -653,8 +914,8 @@ def correspond(ctx):
                                               ty="list (list cell) * outcome result", timeout=600)
         corr.errors.extend(f"refusal shard {k}: {e}" for k, e in errors)
         for b in bad[:4]:
-            lab, obj, out = ref_meta[b]
-            corr.disagreements.append({"stream": "refusal", "case": {"kind": "refuse", "matrix": repr(obj), "label": lab},
+            lab, obj, out, dl = ref_meta[b]
+            corr.disagreements.append({"stream": "refusal", "case": _rcase(lab, obj, *dl),
                                        "impl": list(out), "model": "Err PyValueError"})
     corr.exhaustive = bool(ctx.thorough)
     corr.notes.append("enum3 is exhaustive in both tiers; bin4 is exhaustive in the thorough tier (65,536) and a fixed half in the quick tier")
@@ -681,7 +942,7 @@ def search(ctx, corr, reasons):
         if bad:
             found.append({"stream": "search", "case": c, "what": bad, "observed": list(out[:6])})
     if not found:
-        jobs = [(rand_matrix(ctx.rng, 1, 7), "int", 0) for _ in range(4000)]
+        jobs = [(rand_matrix(ctx.rng, 1, 7), "int", 0) for _ in range(4000)] + [j[1:] for j in dtype_jobs(ctx)]
         with _pool() as pool:
             res = _run_jobs(pool, _work, jobs, 32, max_fail=10)
         jobs = jobs[:len(res)]
@@ -696,18 +957,19 @@ def replay(ctx, rp):
     c = rp["case"]
     if c.get("kind") == "refuse":
         obj = eval(c["matrix"], {"inf": float("inf"), "nan": float("nan")})
-        out = impl_refuse(obj)
+        out = impl_refuse(mk_refuse(obj, c.get("dtype"), c.get("layout")))
         return {"input": c, "implementation": list(out), "fails": out != ("Err", "ValueError")}
     out = impl_run(c["matrix"], c["kind"], c["scale_log2"])
     bad = oracle(c["matrix"], out) or impl_variants(c["matrix"], c["kind"], c["scale_log2"], out)
     return {"input": c, "implementation": list(out[:6]), "oracle": bad, "fails": bool(bad)}
 
 
-KNOWN = {}
+KNOWN = {"C14-narrow-int-wraparound": _known_wrap}
 
 TRUSTED = [
-    "hand-written model coq/Model/Hungarian.v of scipy_hungarian.py (_Hungary, _step1.._step6, driver, transposition), tied by "
-    "differential execution of full state traces (this file)",
+    "hand-written model coq/Model/Hungarian.v of scipy_hungarian.py (_Hungary, _step1.._step6, the driver loop), tied by "
+    "differential execution of full state traces (this file); the rest of the driver (refusal test, orientation, early exit, "
+    "first step, result views, star code) is translated by harness/translate/hungglue.py (fail-closed) and proved equal to the model",
     "numpy semantics used by the code (nonzero row-major, argmax = first maximum, negative index -1 = last column, broadcasting) "
     "are modelled, not verified; machine integers/binary64 are modelled by Z (inputs in the correspondence are small integers or "
     "dyadic binary64 values whose intermediate results are exact)",
@@ -715,7 +977,9 @@ TRUSTED = [
     "field of every state plus the exact result; an exact field-by-field trace stream guards the digest",
 ]
 ASSUMPTIONS = [
-    "entries are finite numbers whose sums/differences are exact in the array dtype (no int64 overflow, no binary64 rounding)",
+    "entries are finite numbers whose sums/differences are exact in the array dtype (no integer wrap-around, no floating-point "
+    "rounding): the generators keep (k+2) * (max - min) within the element type, which bounds every intermediate value of the "
+    "solver (measured maximum: 0.4 of that bound)",
 ]
 TECHNIQUE = ("Coq proofs over a hand-written Gallina model of the Munkres state machine (LP-duality certificate soundness for all "
              "sizes; invariant-based partial correctness of the whole algorithm) + differential correspondence on full state traces")
@@ -737,17 +1001,24 @@ LEVEL_TEXT = (
     "step with the model (exact integers; digest streams + exact field-by-field stream), plus the exact final results: all n x m "
     "matrices (n,m<=3) over {0,1,2}, 4x4 0/1 matrices (all 65,536 in the thorough tier, a fixed half in the quick tier), random "
     "integer / negative / duplicate-row / rectangular / bool / dyadic binary64 matrices up to 8x8 against brute force and up to "
-    "40x40 against the certificate checker (Coq and Python mirror), refusal of inf/nan/ragged/non-numeric/non-2-d input. Every "
+    "40x40 against the certificate checker (Coq and Python mirror), matrices of every integer / unsigned / boolean / floating-point "
+    "element type (int8..uint64, float16/32/64, longdouble, big- and little-endian) in eight memory layouts (C, Fortran, transposed, "
+    "strided, negative strides, offset window, read-only) incl. values at the ends of the type's range and scales 2^-1074..2^960, "
+    "all with return_cost=True and every clause checked on the returned reduced matrix, refusal of inf/-inf/nan in every "
+    "floating-point type and layout, of ragged/non-numeric/non-2-d input. Every "
     "matrix is solved through the public name qcelemental.util.linear_sum_assignment and then again with return_cost omitted, "
-    "return_cost=False, as a nested list and a second time (same pairs / same reduced matrix required; the caller's array must be "
-    "left unchanged).")
+    "return_cost=False, as a nested list, a second time, and once more after the arrays returned earlier were modified in place (same pairs / "
+    "same reduced matrix required; the caller's array must be left unchanged). A call that does not return is bounded by a "
+    "step counter on the state machine and a CPU-time alarm and reported as a failing input.")
 LEVEL_NOTE = (
     "Clause map: existence of an answer for every finite matrix of every shape = C14_terminates + C14_steps_never_fail; "
     "min(n,m) pairs / no repeats / increasing rows / minimum total cost / reduced matrix non-negative, zero on the pairs, "
     "input minus row and column constants / optimal assignments on its zeros = C14_cert_sound + C14_certificate_optimal via "
     "C14_total_correct; refusal of inf/nan/ragged = C14_refuses_nonfinite (+ C14_finite_reaches_solver, "
-    "C14_validated_entry_correct); refusal of non-numeric / non-2-d input, bool->int cast, binary64 entries, "
-    "return_cost omitted/False, nested-list input, the public name qcelemental.util.linear_sum_assignment, repeated calls and "
+    "C14_validated_entry_correct), about the code's current driver through C14_generated_driver_is_the_model; refusal of "
+    "non-numeric / non-2-d input, bool->int cast, narrow / unsigned / floating-point element types and memory layouts, "
+    "return_cost omitted/False, nested-list input, the public name qcelemental.util.linear_sum_assignment, repeated calls, "
+    "modified returned arrays and "
     "'the caller's matrix is not modified' = only correspondence/oracle (variant calls on every matrix of every stream). "
     "Everything planned in DESIGN.md §6 C14 is proved, incl. the extension munkres_terminates (fuel bound (k+2)(2k+8), k=min(n,m), "
     "instead of the design's (n+1)^2(m+1)). Trusted: Coq kernel + vm_compute; the hand-written model (integer matrices; "
@@ -755,4 +1026,7 @@ LEVEL_NOTE = (
     "is exact); numpy semantics (nonzero/argmax order, negative index, broadcasting) are modelled, not verified; the 64-bit "
     "digest used to compare state traces in the volume streams (guarded by an exact trace stream); the correspondence harness "
     "harness/props/c14.py. The theorems are about the model: that the implementation follows it (incl. termination) is "
-    "established per run by the state-trace correspondence, not by proof. No axioms.")
+    "established per run by the state-trace correspondence, not by proof. Known finding C14-narrow-int-wraparound: for a signed "
+    "integer matrix one of whose rows spans more than its element type holds, _step1's in-place subtraction wraps around and the "
+    "returned reduced matrix has negative entries (int8 [[127,-128],[-128,127]]); exercised by the oracle-only `wrap` stream, "
+    "outside the model's 'no wrap-around' assumption. No axioms.")
